@@ -37,7 +37,7 @@ def line_checker(ctx, table, c, i, m, n, st):
 
 def run(ctx):
     ctx.audit()
-    if ctx.tier == "quick": st, dist = V.run_profile(ctx, "C02", 200, 22, 2500, line_checker=line_checker)
+    if ctx.tier == "quick": st, dist = V.run_profile(ctx, "C02", 150, 20, 2500, line_checker=line_checker)
     else: st, dist = V.run_profile(ctx, "C02", 2500, 50, 12000, modes=("shipped", "san"), line_checker=line_checker)
     ctx.coverage["evaluations"] = st["values"] + st["lookups"]
     ctx.coverage["distinct_nontrivial"] = len(st["distinct"])
